@@ -1,0 +1,77 @@
+//go:build verif
+
+package dastard
+
+// Verification hook for C01 (build tag "verif" only): a variant of VerifBench.Block that hands the published
+// records back WITHOUT copying them, so that the harness can read their samples several blocks later, as a
+// publishing goroutine that lags behind processSegment would. No logic of dastard is changed here.
+
+import "time"
+
+// VerifHeldC01 are the records published during one ProcessSegments cycle, still backed by the very
+// *DataRecord objects (and sample slices) that PublishData queued.
+type VerifHeldC01 struct {
+	recs [][]*DataRecord // per channel, in publication order
+}
+
+// Read copies the records now.
+func (h *VerifHeldC01) Read() [][]VerifRecord {
+	out := make([][]VerifRecord, len(h.recs))
+	for c, rs := range h.recs {
+		for _, r := range rs {
+			out[c] = append(out[c], verifRecord(r))
+		}
+	}
+	return out
+}
+
+// BlockHoldC01 runs one ProcessSegments cycle like Block, but leaves the published records un-copied.
+func (b *VerifBench) BlockHoldC01(chans [][]uint16, signed []bool, firstFrame, firstTimeNs, periodNs int64,
+	dropped int) (errText string, primaries [][]int64, held *VerifHeldC01) {
+	ds := b.Source()
+	block := new(dataBlock)
+	block.segments = make([]DataSegment, len(chans))
+	for c := range chans {
+		raw := make([]RawType, len(chans[c]))
+		for i, v := range chans[c] {
+			raw[i] = RawType(v)
+		}
+		block.segments[c] = DataSegment{rawData: raw, framesPerSample: 1,
+			firstFrameIndex: FrameIndex(firstFrame), firstTime: time.Unix(0, firstTimeNs),
+			framePeriod: time.Duration(periodNs), signed: signed[c], droppedFrames: dropped,
+			voltsPerArb: ds.voltsPerArb[c]}
+	}
+	if len(chans) > 0 {
+		block.nSamp = len(chans[0])
+	}
+	if err := ds.ProcessSegments(block); err != nil {
+		errText = err.Error()
+	}
+	primaries = make([][]int64, len(ds.processors))
+	for c, dsp := range ds.processors {
+		for _, f := range dsp.lastTrigList.frames {
+			primaries[c] = append(primaries[c], int64(f))
+		}
+	}
+	held = &VerifHeldC01{recs: make([][]*DataRecord, len(ds.processors))}
+	for {
+		select {
+		case recs := <-b.recChan:
+			for _, r := range recs {
+				held.recs[r.channelIndex] = append(held.recs[r.channelIndex], r)
+			}
+			continue
+		default:
+		}
+		break
+	}
+	for {
+		select {
+		case <-b.sumChan:
+			continue
+		default:
+		}
+		break
+	}
+	return errText, primaries, held
+}
